@@ -323,6 +323,9 @@ def run_check(mod, tier, seed, replay=None):
     samples = []
     model_vs_spec = []
 
+    known = [k for k in load_known() if k["property"] == pid and k.get("status") == "known"]
+    known_keys = {k["key"]: k for k in known}
+
     def explore(cases):
         cases = list(cases)
         lines, idx = [], []
@@ -355,6 +358,9 @@ def run_check(mod, tier, seed, replay=None):
                 samples.append({"case": c, "impl": got, "expected": exp})
             stats["oracle_compared"] += 1
             ok = mod.agree(c, got, exp) if hasattr(mod, "agree") else canon(got) == canon(exp)
+            fkey = None
+            if not ok:
+                fkey = mod.finding_key(c, got, exp) if hasattr(mod, "finding_key") else k
             r = replies.get(i)
             if r is not None:
                 if "err" in r:
@@ -367,10 +373,10 @@ def run_check(mod, tier, seed, replay=None):
                     if not same:
                         model_vs_spec.append({"case": c, "lean_spec": s, "python_oracle": exp})
                 if m is not None and not (mod.agree_model(c, got, m) if hasattr(mod, "agree_model") else canon(got) == canon(m)):
-                    corr_breaks.append({"case": c, "impl": got, "model": m, "expected": exp})
+                    if fkey is None or fkey not in known_keys:   # a recorded known finding explains this disagreement
+                        corr_breaks.append({"case": c, "impl": got, "model": m, "expected": exp})
             if not ok:
-                failures.append({"case": c, "impl": got, "expected": exp,
-                                 "key": mod.finding_key(c, got, exp) if hasattr(mod, "finding_key") else k})
+                failures.append({"case": c, "impl": got, "expected": exp, "key": fkey})
 
     if replay:
         rp = json.loads(Path(replay).read_text())
@@ -383,8 +389,6 @@ def run_check(mod, tier, seed, replay=None):
     if model_vs_spec:
         raise Machinery("Lean spec and Python oracle disagree (machinery error): " + canon(model_vs_spec[0])[:1500])
 
-    known = [k for k in load_known() if k["property"] == pid and k.get("status") == "known"]
-    known_keys = {k["key"]: k for k in known}
     new_fail = [f for f in failures if f["key"] not in known_keys]
     widened = False
     if not new_fail and (proof_broken or corr_breaks) and not replay:
